@@ -161,6 +161,50 @@ let handle (a : string array) : string =
          | _ -> failwith "bad frame token")
       done;
       String.concat " " (List.rev !out)
+  | "NEEDRAW" ->
+      (* NEEDRAW cp(7) srcLen : neededSpace of ZSTD_compress_advanced with exactly these cParams *)
+      hex_of_n (need_advanced_raw !rz (cp_of a 1) (n_of_hex a.(8)))
+  | "EDFF" -> optn (estimateDStreamSize_fromFrame (b_of a.(1)) (n_of_hex a.(2)) (n_of_hex a.(3)))
+  | "CDLVL" ->
+      (* CDLVL start dictSize level srcHint : the level-based static CDict recipe of zstd.h *)
+      let start = n_of_hex a.(1) and d = n_of_hex a.(2) and l = z_of_hex a.(3) and hint = n_of_hex a.(4) in
+      let cp = getCParams_public l hint d in
+      let est = estimateCDictSize !rz d l and adv = estimateCDictSize_advanced !rz d cp false in
+      (match cdict_level_recipe !rz start d l hint with InitNull -> "NULL" | InitOk _ -> "OK") ^
+      " est=" ^ hex_of_n est ^ " adv=" ^ hex_of_n adv ^ " cp=" ^
+      String.concat "," (List.map hex_of_n [cp.wlog; cp.clog; cp.hlog; cp.slog; cp.mml; cp.tlen; cp.strat])
+  | "DOWN" ->
+      (* DOWN staticSize op op ... : ownership history of one DCtx; per op rc/live/sizeof/tableSize/count
+         (live counts the context itself for a heap context) *)
+      let ssz = n_of_hex a.(1) in
+      let d = ref (down0 ssz) in
+      let live = ref (if ssz = N0 then sizeof_ZSTD_DCtx else N0) in
+      let out = ref [] in
+      for i = 2 to Array.length a - 1 do
+        let t = a.(i) in
+        let rest = String.sub t 1 (String.length t - 1) in
+        let two () = match String.split_on_char '/' rest with [x; y] -> (x, y) | [x] -> (x, "0") | _ -> failwith "bad op" in
+        let op = match t.[0] with
+          | 'M' -> OpMulti (b_of rest)
+          | 'R' -> OpRef (n_of_hex rest)
+          | 'N' -> OpRefNull
+          | 'L' -> let (x, y) = two () in OpLoad (n_of_hex x, b_of y)
+          | 'F' -> let (x, y) = two () in
+                   (match frame_windowSize false (n_of_hex x) N0 with
+                    | Some w -> ignore y; OpFrame (w, uNKNOWN)
+                    | None -> failwith "bad window descriptor")
+          | 'Z' -> OpReset
+          | 'C' -> OpCopyFrom (b_of rest, UseNone)
+          | 'P' -> OpPrefix (n_of_hex rest)
+          | _ -> failwith ("bad op " ^ t) in
+        let ((d1, rc), es) = down_step !d op in
+        d := d1; live := live_after !live es;
+        let rcs = match rc with RcOk -> "OK" | RcMem -> "M" | RcWindow -> "W" | RcUnsupported -> "E40" | RcGeneric -> "E1" in
+        let (ts, cn) = match d1.do_set with Some h -> (h.hs_size, hs_count h) | None -> (N0, N0) in
+        out := (rcs ^ "/" ^ hex_of_n !live ^ "/" ^ hex_of_n (sizeof_DCtx_full d1) ^ "/" ^ hex_of_n ts ^ "/" ^ hex_of_n cn) :: !out
+      done;
+      let fin = live_after !live (free_events !d) in
+      String.concat " " (List.rev !out) ^ " free=OK live=" ^ hex_of_n fin
   | s -> failwith ("unknown case kind " ^ s)
 
 let () =
